@@ -1,6 +1,6 @@
 //@unit xbcast
 //@exec
-//@props C14
+//@props C14,C17
 // BOUNDED executable stand-in for the first sentence of C14 (labelled bounded, never counted as proved): the REAL text of
 // ports/output/broadcaster.rs (whole file up to its test modules: BroadcasterInner, EventBroadcaster, QueryBroadcaster,
 // BroadcastFuture) and of util/task_set.rs (whole file: the wake-up bookkeeping of the joined sender futures) is cut from
